@@ -68,6 +68,17 @@ CLAIMED = {
             "Trusts the pyvc encoder (Python subset semantics), z3; python ints are mathematical integers (exact); integral "
             "floats as reals; termination only where a decreases clause is given.",
             "DESIGN.md 4 C16", "E1"),
+    "C44": ("proof",
+            "sidecar contracts over the abstract view expand(spec) on the real methods of core/shots.py; sequences of "
+            "SYMBOLIC length (z3 Seq), loop invariants for the merging loop / generators, modular callee contract for "
+            "__all_tuple_init__, induction lemmas (base+step) for the derived laws of the spec functions; z3",
+            "__all_tuple_init__ (merging of adjacent equal entries), __init__ for None/int/str/float/list/tuple inputs, "
+            "__iter__, bins, __bool__, has_partitioned_shots, __add__, __eq__, valid_int/valid_tuple are proved for every "
+            "input of every length: shot_vector/total/iteration/bins agree with the expanded list, + concatenates it. "
+            "__mul__ is proved for all values on vectors of 1-3 entries (size-bounded, reported separately).",
+            "Trusts the pyvc encoder, z3 (Seq + LIA/NIA); A-concrete-inputs (abstract-array branches dropped); float scalar as "
+            "real; mixed int/pair input sequences of symbolic length, num_copies and __hash__ are not covered.",
+            "DESIGN.md 4 C44", "E1"),
 }
 
 
